@@ -6,7 +6,8 @@ DESIGN_REF = 'DESIGN.md section 3, C11'
 TECHNIQUE = 'deductive verification: TagPool invariant with a derived "leased" view, release precondition checked at every call site, z3/cvc5'
 LEVEL_TEXT = ('TagPool.get/release and the mux sink functions that touch tags are verified against contracts stated over the view '
               'leased(t) = 2 <= t <= high-water mark and t not in the free set: get returns a tag in [2, 2^24-2] that was not leased and reuses a released one when there is one; '
-              'release requires a leased tag, and every call site must establish that, with the tag coming off the wire unconstrained.')
+              'release requires a leased tag, and every call site must establish that, with the tag coming off the wire unconstrained.'
+              ' A ghost flag on the message properties records that the frame has been handed to the socket: _HandleTimeout (which may give the tag back) requires it unset, so the timeout decision that can release a tag is the one taken before the write; the send loop is part of this check.')
 LEVEL_NOTE = 'Trusted: pyvc encoding, z3/cvc5, python set semantics as encoded (set.pop returns an arbitrary member), extern contracts listed in the evidence.'
 ASSUMPTIONS = ['delivering a reply up a call\'s sink stack does not synchronously re-enter the transport (singleton pool above the mux transport)']
 TRUSTED = []
